@@ -359,7 +359,7 @@ def _c07(tier, rng):
 
 _reg(DecodeProp(
     "C07", ["CvssVerif.Props.C07"],
-    ["CvssVerif.Props.C07.accept3_iff", "CvssVerif.Props.C07.decode3_outcome"],
+    ["CvssVerif.Props.C07.accept3_iff", "CvssVerif.Props.C07.decode3_outcome", "CvssVerif.Props.C07.delegation"],
     _c07,
     "systematic edit neighbourhood (drop / duplicate / swap token, every code and every name of the library substituted at every position, "
     "case changes, colon and slash insertions and removals, prefix variants, whitespace, character edits) of seeded seed vectors of all "
@@ -391,7 +391,7 @@ def _c10(tier, rng):
 
 
 _reg(DecodeProp(
-    "C08", ["CvssVerif.Props.C08"], ["CvssVerif.Props.C08.accept2_iff", "CvssVerif.Props.C08.encode2_identity"], _c08,
+    "C08", ["CvssVerif.Props.C08"], ["CvssVerif.Props.C08.accept2_iff", "CvssVerif.Props.C08.encode2_identity", "CvssVerif.Props.C08.delegation"], _c08,
     "systematic edit neighbourhood of canonical v2 vectors of all four group patterns (drop / duplicate / swap, every code and name, case, "
     "colon/slash edits, group reorder, partial groups, version prefixes, whitespace, character edits) at all three decoders; random bytes",
     assumptions=["the theorem covers all byte strings on the model; the transfer to the code holds for the strings compared in this run"]))
@@ -472,7 +472,14 @@ class C12Prop(DecodeProp):
         viol = 0
         for op, g, m in zip(ops, go, mo):
             f = op.split(" ")
-            if g != m:
+            if f[0] in ("F3", "F2"):
+                # objects with one field overwritten: compared on what C12 states (which levels report an error, and
+                # score +0 there), not on the scores of the levels that stay valid
+                differs = (runner.validity_pattern(core.parse_kv(g)) != runner.validity_pattern(core.parse_kv(m))
+                           or g.split(" ")[0] != m.split(" ")[0])
+            else:
+                differs = g != m
+            if differs:
                 nm += 1
                 if len(out.mismatch_examples) < 10:
                     out.mismatch_examples.append({"stream": "observers", "op": op, "impl": g, "model": m})
@@ -904,6 +911,7 @@ class ExportProp(SimpleProp):
         vecs = ["CVSS:3.1/AV:N/AC:L/PR:N/UI:N/S:C/C:H/I:H/A:H", "CVSS:3.0/AV:L/AC:H/PR:L/UI:R/S:U/C:L/I:N/A:H/E:F/RL:W/RC:R/CR:H/MAV:N/MS:C"]
         ops = []
         modes = ["string", "reader", "chunked", "nilreader", "nilreport", "fail:0", "fail:3"]
+        seen_t = []
         for i in range(n):
             k = 1 + rng.below(4)
             t = "".join(rng.choice(TEMPLATE_ATOMS) + rng.choice(["", " ", "\n", "-"]) for _ in range(k))
@@ -911,6 +919,15 @@ class ExportProp(SimpleProp):
                 pos = rng.below(len(t))
                 t = t[:pos] + rng.choice(["{", "}", ".", "\x00", "{{", "}}", "\"", "|"]) + t[pos + rng.below(2):]
             t = t[:200]
+            if rng.chance(1, 25) and t:
+                # long templates: around buffer sizes a reader implementation might use
+                target = rng.choice([500, 4095, 4096, 4097, 8192, 32768, 70000] + ([1 << 20] if tier == "thorough" else []))
+                t = (t + " ") * (target // (len(t) + 1) + 1)
+                t = t[:target + rng.below(3)]
+            elif rng.chance(1, 8) and seen_t:
+                t = rng.choice(seen_t)          # the same template text again (same or another report, mode, level)
+            if len(t) <= 200:
+                seen_t.append(t)
             L = "BTE"[rng.below(3)]
             mode = modes[i % len(modes)] if i < 4 * len(modes) else rng.choice(modes)
             if mode.startswith("fail:") and rng.chance(1, 2):
